@@ -14,6 +14,12 @@ const mergeDirName = "-merge"
 
 // Merge 立即执行 Merge 过程
 func (db *DB) Merge() error {
+	// 整个 merge 过程持有 mergeMu, 始终先于 db.mu 获取
+	if !db.mergeMu.TryLock() {
+		return ErrMergeIsProgress
+	}
+	defer db.mergeMu.Unlock()
+
 	// 方法仅部分逻辑需加锁, 不应 defer
 	// 前置校验读取的活跃文件, merge 状态与统计值均可能被并发修改, 需在持有锁时进行
 	db.mu.Lock()
